@@ -515,7 +515,7 @@ def set_item(it, v, idx, val):
             return
         if isinstance(o, HList):
             i = norm_index(it, idx, len(o.items), "list assignment index out of range")
-            o = it.ctx.mutate(v)
+            o = it.ctx.mutate(v, ("i", i) if is_conc(i) else None)
             if is_conc(i):
                 o.items[i] = val
                 return
